@@ -40,6 +40,12 @@ pub enum Op {
 	/// the default account reserves outputs for a send and cancels it before it is ever posted
 	/// (allowed by the premise: only cancelling after broadcast is excluded)
 	PendingCancelA0,
+	/// 51 blocks mined by the miner wallet (nobody refreshes)
+	MineM51,
+	/// B pays A.default; A receives, B finalizes, the transaction is held back (not posted yet)
+	RecvBA0Hold,
+	/// the held transaction is posted
+	PostHeld,
 	SwitchA,
 	RefreshA,
 	RefreshB,
@@ -319,6 +325,42 @@ impl Model for M {
 				};
 				w.w("A").set_account(&active).unwrap();
 				touched_a = Some("m/0/0");
+			}
+			Op::MineM51 => {
+				for _ in 0..51 {
+					w.mine("M").unwrap();
+				}
+				out.label = "ok".into();
+			}
+			Op::RecvBA0Hold => {
+				w.w("A").set_account("default").unwrap();
+				let a = w.w("A");
+				let b = w.w("B");
+				let r = (|| -> Result<String, crate::libwallet::Error> {
+					let s1 = b.init_send(default_args(4 * G))?;
+					b.lock(&s1)?;
+					let s2 = a.receive(&s1, None)?;
+					let s3 = b.finalize(&s2)?;
+					Ok(tx_to_hex(s3.tx_or_err()?))
+				})();
+				match r {
+					Ok(h) => {
+						w.meta.extra["held_tx"] = json!(h);
+						out.label = "ok".into();
+					}
+					Err(e) => out.label = err_label(&e),
+				}
+				w.w("A").set_account(&active).unwrap();
+				touched_a = Some("m/0/0");
+			}
+			Op::PostHeld => {
+				out.label = match w.meta.extra["held_tx"].as_str() {
+					Some(h) => match w.w("B").post(&tx_from_hex(h)) {
+						Ok(()) => "ok".into(),
+						Err(_) => "post-refused".into(),
+					},
+					None => "nothing-held".into(),
+				};
 			}
 			Op::PendingA1 => {
 				let a = w.w("A");
@@ -635,6 +677,9 @@ pub fn run(_args: &[String]) -> i32 {
 				dpaths.push(vec![o.clone(), Op::SendA0BZeroConf, Op::RefreshA, Op::MineM, Op::RefreshA]);
 			}
 			// a pending transaction in one account, a reserve-and-cancel in the other (per-account log ids collide)
+			// a payment received long after the receiver last looked at the chain, refreshed while still unposted
+			dpaths.push(vec![Op::MineM51, Op::RecvBA0Hold, Op::RefreshA, Op::PostHeld, Op::MineM, Op::RefreshA]);
+			dpaths.push(vec![Op::RecvBA0Hold, Op::MineM51, Op::RefreshA, Op::PostHeld, Op::MineM, Op::RefreshA]);
 			dpaths.push(vec![Op::PendingA1, Op::PendingCancelA0]);
 			dpaths.push(vec![Op::PendingA1, Op::PendingCancelA0, Op::SwitchA, Op::RefreshA]);
 			dpaths.push(vec![Op::PendingA1, Op::PendingCancelA0, Op::MineM, Op::RefreshA]);
